@@ -186,7 +186,7 @@
 // 'maxsize'
 static inline unsigned int safec_strnlen_s(const char *str, size_t maxsize) {
     const char *s;
-    for (s = str; *s && maxsize--; ++s)
+    for (s = str; maxsize && *s; ++s, --maxsize)
         ;
     return (unsigned int)(s - str);
 }
@@ -1375,7 +1375,7 @@ int safec_vsnprintf_s(out_fct_type out, const char *funcname, char *buffer,
             }
             op = p;
             // string output
-            while ((*p != 0) && (!(flags & FLAGS_PRECISION) || precision--)) {
+            while ((!(flags & FLAGS_PRECISION) || precision--) && (*p != 0)) {
                 rc = out(*(p++), buffer, idx++, bufsize);
                 if (unlikely(rc < 0)) { // eg.  EBADF write to closed file
                     if (flags & FLAGS_LONG)
